@@ -236,7 +236,7 @@ def parse(text, origin='crate'):
 
 # ---------------------------------------------------------------- enum declarations from source
 STD_ENUMS = {('Option', None): ['None', 'Some'], ('Result', None): ['Ok', 'Err'], ('Poll', None): ['Ready', 'Pending'],
-             ('TryLockError', None): ['Poisoned', 'WouldBlock'], ('Ordering', None): ['Relaxed', 'Release', 'Acquire', 'AcqRel', 'SeqCst']}
+             ('TryLockError', None): ['Poisoned', 'WouldBlock'], ('Ordering', None): ['Relaxed', 'Release', 'Acquire', 'AcqRel', 'SeqCst'], ('ControlFlow', None): ['Continue', 'Break']}
 
 def load_enums(srcdir):
     """{(EnumName, enclosing fn or None): [variant names in declaration order]}"""
